@@ -5533,6 +5533,82 @@ func rulePropDwAny(prop string) ruleFn {
 		} else {
 			r.violation("PROP-DW-ANY", key, w.Pos(prep.Pos()), "PrepareFact gives a fact that is a property no deleteWith: written with the plain fact API, a property survives the fact or rule it belongs to")
 		}
+		// load clause: PrepareFact runs when a fact is written and again when it is loaded (IndexedState.Load); what it
+		// puts into the fact must not hang on the `loading` flag, or the fact is another one after a reload.  (Refusals
+		// may: what is stored already is loaded as it is.)
+		isLoading := func(v ssa.Value) bool {
+			_, f, _, ok := loadedField(v)
+			return ok && f == "loading"
+		}
+		var hang ssa.Instruction
+		allInstrs(prep, func(in ssa.Instruction) {
+			if mu, ok := in.(*ssa.MapUpdate); ok && hang == nil && controlDependsOnClassic(prep, mu, isLoading, isSuccessReturnPS) {
+				hang = in
+			}
+		})
+		if hang != nil {
+			r.violation("PROP-DW-ANY", key+" load", w.PosOf(hang), "PrepareFact writes into the fact depending on whether the location is being loaded: the same fact is another one after a reload (a location-level property gained \"deleteWith\":[\"\"] only at load)")
+		} else {
+			r.ok("PROP-DW-ANY", key+" load", w.Pos(prep.Pos()), "nothing PrepareFact writes into the fact hangs on the loading flag")
+		}
+		// given clause: a property that comes with a deleteWith of its own goes with its target, too: with the
+		// `no deleteWith given` outcome deleted, a deleteWith naming the target is still written.
+		kept := false
+		for _, pc := range pcs {
+			target := func(v ssa.Value) bool {
+				e, ok := v.(*ssa.Extract)
+				return ok && e.Tuple == ssa.Value(pc) && e.Index == 1
+			}
+			absent := map[bedge]bool{}
+			for _, b := range prep.Blocks {
+				if len(b.Instrs) == 0 {
+					continue
+				}
+				ifi, ok := b.Instrs[len(b.Instrs)-1].(*ssa.If)
+				if !ok {
+					continue
+				}
+				ct, ok := decodeIf(ifi)
+				if !ok {
+					continue
+				}
+				ex, ok := resolveSpill(ct.V).(*ssa.Extract)
+				if !ok || ex.Index != 1 {
+					continue
+				}
+				lk, ok := ex.Tuple.(*ssa.Lookup)
+				if !ok || !lk.CommaOk {
+					continue
+				}
+				if k, isC := constKey(lk.Index); !isC || k != "deleteWith" {
+					continue
+				}
+				// the edge taken when the key is absent
+				if ct.TrueWhen == "true" {
+					absent[bedge{b, 1}] = true
+				} else if ct.TrueWhen == "false" {
+					absent[bedge{b, 0}] = true
+				}
+			}
+			isDW := func(in ssa.Instruction) bool {
+				mu, ok := in.(*ssa.MapUpdate)
+				if !ok {
+					return false
+				}
+				if k, isC := constKey(mu.Key); !isC || k != "deleteWith" {
+					return false
+				}
+				return sliceHolds(mu.Value, target) || dependsOn(mu.Value, target)
+			}
+			if h, _ := reach(prep, pc, isDW, nil, edgeFilterOf(absent)); h != nil {
+				kept = true
+			}
+		}
+		if kept {
+			r.ok("PROP-DW-ANY", key+" given", w.Pos(prep.Pos()), "a property that names other ids in its deleteWith names its target, too")
+		} else {
+			r.violation("PROP-DW-ANY", key+" given", w.Pos(prep.Pos()), "a property that comes with a deleteWith of its own ({\"id\":\"r1\",\"!note\":1,\"deleteWith\":[\"lease\"]}) is not given its target: it survives the fact or rule it belongs to")
+		}
 	}
 }
 
